@@ -4,6 +4,7 @@ from __future__ import annotations
 import argparse
 import ast
 import collections
+import functools
 import io
 import logging
 import os
@@ -11,7 +12,7 @@ import re
 import sys
 import textwrap
 from pathlib import Path
-from typing import Collection, Iterable, Mapping, Sequence
+from typing import Callable, Collection, Iterable, Mapping, Sequence
 
 import rmspace
 
@@ -156,6 +157,19 @@ def _multi_run_fixes(source: str, preserve: Collection[str]) -> str:
     return source
 
 
+def _apply_layout_stage(stage: Callable[[str], str], source: str) -> str:
+    """Apply a stage that edits the text of the module.
+
+    Such a stage knows nothing of string literals, where tabs and trailing blanks are part of the
+    value, so its result is used only if it is still the same program.
+    """
+    new_source = stage(source)
+    if core.keeps_syntax_tree(source, new_source):
+        return new_source
+
+    return source
+
+
 def format_code(
     source: str,
     *,
@@ -170,8 +184,8 @@ def format_code(
         return source
 
     unformatted_source = source
-    source = source.expandtabs(4)
-    source = rmspace.format_str(source)
+    source = _apply_layout_stage(functools.partial(str.expandtabs, tabsize=4), source)
+    source = _apply_layout_stage(rmspace.format_str, source)
     source = fixes.fix_too_many_blank_lines(source)
 
     if not source.strip():
@@ -278,12 +292,14 @@ def format_code(
     source = fixes.sort_imports(source)
 
     source = fixes.fix_line_lengths(source, max_line_length=max_line_length)
-    source = rmspace.format_str(source)
+    source = _apply_layout_stage(rmspace.format_str, source)
 
     if minimum_indent > 0:
         source = textwrap.indent(source, " " * minimum_indent)
 
-    source, *_ = processing.minimize_whitespace_line_differences(original_source, source)
+    minimized_source, *_ = processing.minimize_whitespace_line_differences(original_source, source)
+    if core.keeps_syntax_tree(source, minimized_source):  # A blank line may be a line of a string
+        source = minimized_source
 
     return source
 
